@@ -97,6 +97,19 @@ def reshape(flat, shape):
 
 # ---------------------------------------------------------------- call generators
 
+def smooth_zone(n, w, et):
+    """'dom'  : inside the property's quantifier (owidth <= n) -- the width made odd is then <= n+1;
+       'edge' : owidth = n+1 odd (width-1 = n, still inside the theorem's hypothesis width-1 <= n), or any wider
+                window without edge_truncate (theorem holds for all widths there);
+       'wide' : edge_truncate with width_made_odd - 1 > n: outside (the code is not a clamped boxcar there)."""
+    wodd = w + 1 if w % 2 == 0 else w
+    if w <= n:
+        return 'dom'
+    if not et or wodd - 1 <= n:
+        return 'edge'
+    return 'wide'
+
+
 def gen_smooth(ctx, calls):
     rng = ctx.rng
     nmax = 40
@@ -113,8 +126,13 @@ def gen_smooth(ctx, calls):
                 for rep in range(ctx.n(1, 3)):
                     if ctx.thorough:
                         xs = values(rng, n)
-                    calls.append(('smooth-%s-%s' % ('et' if et else 'plain', 'dom' if w <= n else 'wide'),
+                    calls.append(('smooth-%s-%s' % ('et' if et else 'plain', smooth_zone(n, w, et)),
                                   {'f': 'smooth', 'x': xs, 'w': w, 'et': et}))
+    for n in range(1, nmax + 1):
+        for w in (n - 1, n, n + 1, n + 2):
+            for et in (False, True):
+                calls.append(('smooth-boundary-%s-%s' % ('et' if et else 'plain', smooth_zone(n, w, et)),
+                              {'f': 'smooth', 'x': values(rng, n), 'w': w, 'et': et}))
     for w in (-3, -2, -1):
         calls.append(('smooth-negwidth', {'f': 'smooth', 'x': values(rng, 7), 'w': w, 'et': True}))
     for n in (1, 2, 5, 9):
@@ -508,7 +526,7 @@ def signature(tag, c, r, verdict):
         return 'C14:rebin:%s:%s:%s%s:impl=%s:%s' % (kind, ops, 'floatidx' if inexact else 'exactidx',
                                                    ':sample' if c['sample'] else '', out, what)
     if f == 'smooth':
-        return 'C14:smooth:%s:%s:%s' % ('et' if c['et'] else 'plain', 'dom' if c['w'] <= len(c['x']) else 'wide', what)
+        return 'C14:smooth:%s:%s:%s' % ('et' if c['et'] else 'plain', smooth_zone(len(c['x']), c['w'], bool(c['et'])), what)
     if f == 'uniq':
         return 'C14:uniq:%s:%s' % (tag.split('-', 1)[1], what)
     if f == 'medfilt':
